@@ -459,6 +459,19 @@ func runProgram(b built, c Case, path string, prog []Op, label string) error {
 			if err := checkDeep(b, op.Num, got); err != nil {
 				return fmt.Errorf("%s: %v", where, err)
 			}
+		case "rshallow":
+			// the shallow form on the same shared resolver: the object as stored, its references left as references,
+			// whatever the resolver did before (a deep resolution of the same number, for instance)
+			got, err := res.Resolve(core.IndirectRef{Number: op.Num, Generation: genOf(e)})
+			if !live {
+				continue
+			}
+			if err != nil {
+				return fmt.Errorf("%s: Resolve on a resolver.ObjectResolver that served earlier lookups failed: %v", where, err)
+			}
+			if err := expectObject(b, op.Num, got); err != nil {
+				return fmt.Errorf("%s: Resolve on a resolver.ObjectResolver that served earlier lookups: %v", where, err)
+			}
 		case "xref":
 			ent, ok := r.XRefTable().Get(op.Num)
 			if live && (!ok || !ent.InUse) {
@@ -552,7 +565,7 @@ func genCase(t *rapid.T) Case {
 	size := c.N + 3 + r*c.N + 2*r
 	np := rapid.IntRange(1, 14).Draw(t, "programLen")
 	for i := 0; i < np; i++ {
-		kind := rapid.SampledFrom([]string{"get", "get", "get", "resolve", "deep", "rdeep", "rdeep", "clear", "xref"}).Draw(t, "op")
+		kind := rapid.SampledFrom([]string{"get", "get", "get", "resolve", "deep", "rdeep", "rdeep", "rshallow", "rshallow", "clear", "xref"}).Draw(t, "op")
 		num := rapid.IntRange(0, c.N+2).Draw(t, "num")
 		if rapid.IntRange(0, 5).Draw(t, "far") == 0 {
 			num = rapid.IntRange(0, size+2).Draw(t, "numFar")
@@ -674,7 +687,7 @@ func TestExhaustiveSmall(t *testing.T) {
 				c.Revs = append(c.Revs, rv)
 			}
 			for num := 0; num <= n+3; num++ {
-				c.Program = append(c.Program, Op{"get", num}, Op{"deep", num}, Op{"resolve", num}, Op{"rdeep", num})
+				c.Program = append(c.Program, Op{"get", num}, Op{"deep", num}, Op{"resolve", num}, Op{"rdeep", num}, Op{"rshallow", num})
 			}
 			// every sixth history with its three sections laid out in another physical order
 			if perm := [][]int{{2, 1, 0}, {1, 0, 2}, {0, 2, 1}, {2, 0, 1}, {1, 2, 0}}[(h/6)%5]; h%6 == 0 && r == 3 {
